@@ -70,6 +70,21 @@ DELIMS = [":", ":", ":", "::", "/", "|", "_", "-:"]
 IDENTS = ["", "1", "0001", "a/b", "x#y", "a b", ":", "::z", "é", "1:2", "http://e.org/"]
 
 
+# hazard pools (used by hazard_oplists, a SEPARATE random stream appended to the behaviours above): strings that are
+# not in Unicode normal form C, characters whose lower / upper / casefold forms differ in unusual ways, invisible
+# characters, leading / trailing white space, characters outside the BMP
+HAZ_P_ATOMS = ["e\u0301", "\u00e9", "E\u0301", "\u212b", "\u00c5", "\u2126", "\u03a9", "\u212a", "k", "K", "\u017f", "s", "S", "\u0131", "\u0130", "i", "I",
+               "\u039f\u0394\u039f\u03a3", "\u03bf\u03b4\u03bf\u03c2", "\u03bf\u03b4\u03bf\u03c3", "\ufb01", "fi", "FI", "stra\u00dfe", "STRASSE", "strasse", "Stra\u1e9ee",
+               "GO ", " GO", "GO", "GO\u00a0", "go\n", "a\u200cb", "a\u200db", "ab", "a\u00adb", "\U0002f800", "\u4e3d", "\u1100\u1161", "\uac00", "\u0149", "\u02bcn",
+               "id", "\u0131d", "ID", "\u0130d", "\U0001d4b3", "x.y"]
+HAZ_U_ROOTS = ["http://e.org/", "https://e.org/", "http://E.org/", "", "http://e.org/cafe\u0301/", "http://e.org/caf\u00e9/", "http://e.org/\u212a/", "http://e.org/K/", "http://e.org/k/",
+               "http://e.org/ma\u00dfe/", "http://e.org/MASSE/", "http://e.org/entity/Q", "http://e.org/entity/P", "http://e.org/entity/", "http://e.org/x?id=", "http://e.org/x?id=CHEBI:",
+               "http://e.org/a.b/", "http://e.org/a+b/", "http://e.org/(a)/", "http://e.org/[a]/"]
+HAZ_U_STEPS = ["a", "A", "e\u0301", "\u00e9", "\u212a", "K", "k", "\u017f", "s", "\u0131", "i", "\u03c2", "\u03c3", "\u03a3", "\ufb01", "fi", "\u00df", "ss", "/", "#", "_", ":", "=",
+               "?", "+", ".", "(", ")", "[", "*", " ", "\n", "\u200c", "\u00ad", "\U0002f800", "1", "Q", "P"]
+HAZ_IDENTS = ["", "1", "e\u0301", "\u00e9", "\u212b", "\u212a", "\U0002f800", "\u1100\u1161", "x\n", "a\u200cb", " 1", "1 ", "a/b", "Q42", "P31", ":", "::z", "0" * 40, "a" * 33 + ":b"]
+
+
 def rand_uri_prefix(rng):
     s = rng.choice(U_ROOTS)
     for _ in range(rng.randrange(0, 4)):
@@ -136,6 +151,95 @@ def extra_probes(rng, recs, delim, upool=(), n=10):
         out.append(u + "Z9")
     rng.shuffle(out)
     return out[:n]
+
+
+def hazard_oplists(pid, seed, n):
+    """random_oplists over the hazard pools, on a random stream of its own."""
+    global P_ATOMS, U_ROOTS, U_STEPS, IDENTS
+    saved = (P_ATOMS, U_ROOTS, U_STEPS, IDENTS)
+    P_ATOMS, U_ROOTS, U_STEPS, IDENTS = HAZ_P_ATOMS, HAZ_U_ROOTS, HAZ_U_STEPS, HAZ_IDENTS
+    try:
+        return random_oplists(pid, random.Random(seed * 31 + 977 + int(pid[1:])), n)
+    finally:
+        P_ATOMS, U_ROOTS, U_STEPS, IDENTS = saved
+
+
+def big_records(n, tag="big"):
+    """n records over distinct names; every third has a CURIE-prefix synonym, every fourth a URI-prefix synonym, and
+    record 0's URI prefix is nested inside by record 1's."""
+    recs = []
+    for i in range(n):
+        recs.append({"p": f"p{i:03d}", "u": f"http://{tag}.example/{i:03d}/" if i != 1 else f"http://{tag}.example/000/sub_",
+                     "ps": [f"s{i:03d}"] if i % 3 == 0 else [], "us": [f"https://{tag}.example/{i:03d}/"] if i % 4 == 0 else [], "pat": None})
+    return recs
+
+
+def scale_oplists(pid, seed):
+    """Behaviours beyond the SIZE bounds of the models: converters of 40 and 150 records, twelve-record clash sets,
+    remappings of 130 entries; two equal big converters alive at once, one of them changed."""
+    rng = random.Random(seed * 17 + 4242 + int(pid[1:]))
+    out = []
+    big = big_records(40)
+    probes = [r["p"] + ":1" for r in big] + [r["u"] + "1" for r in big[:20]] + ["s000:1", "https://big.example/000/1", "P007:1", "a0:1", "http://big.example/000/sub_1"]
+    grow = [{"k": "add", "i": 1, "rec": {"p": "a0", "u": "http://big.example/005/deeper#", "ps": ["a1"], "us": [], "pat": None}, "cs": True, "mg": False, "via": "record"},
+            {"k": "add", "i": 1, "rec": {"p": "P007", "u": "http://other.example/", "ps": [], "us": ["HTTP://BIG.EXAMPLE/009/"], "pat": None}, "cs": False, "mg": True, "via": "record"},
+            {"k": "add", "i": 1, "rec": {"p": "P011", "u": "http://other2.example/", "ps": [], "us": [], "pat": None}, "cs": False, "mg": False, "via": "record"},
+            {"k": "add", "i": 1, "rec": {"p": "zz9", "u": "http://big.example/012/", "ps": ["p013"], "us": [], "pat": None}, "cs": True, "mg": True, "via": "record"}]
+    if pid in QUERY_PROPS or pid in ("C05", "C10"):
+        # two equal big converters alive at once; the first grows (nested prefix, case-insensitive merge, a prefix that sorts
+        # first); both are probed on every prefix after each step
+        ops = [{"k": "new", "recs": big, "delim": ":", "extra": probes}, {"k": "new", "recs": big, "delim": ":", "extra": probes}]
+        for g in grow:
+            ops.append(dict(g, extra=probes + [g["rec"]["p"] + ":1", g["rec"]["u"] + "1"]))
+            ops.append({"k": "probe", "is": [1, 2], "extra": probes + [g["rec"]["p"] + ":1", g["rec"]["u"] + "1", "http://big.example/005/deeper#7", "http://big.example/005/7"]})
+            if pid == "C05":
+                ops.append({"k": "fresh", "i": 1})
+        out.append(ops)
+    if pid == "C04":
+        # a clash between the records at positions i < j of twelve, every pair of positions, either side
+        base = big_records(12, "clash")
+        for i in range(12):
+            for j in range(i + 1, 12):
+                recs = [dict(r) for r in base]
+                if (i + j) % 2:
+                    recs[j] = dict(recs[j], us=sorted(set(recs[j]["us"]) | {recs[i]["u"]}))
+                else:
+                    recs[j] = dict(recs[j], ps=sorted(set(recs[j]["ps"]) | {recs[i]["p"]}))
+                sh = list(recs)
+                if (i * 12 + j) % 3 == 0:
+                    rng.shuffle(sh)
+                out.append([{"k": "new", "recs": sh, "delim": ":"}])
+        out.append([{"k": "new", "recs": base, "delim": ":"}])
+    if pid in ("C09", "C10"):
+        big150 = big_records(150)
+        keep = [r["p"] for r in big150[:140]]
+        p150 = [r["p"] + ":1" for r in big150[::7]] + [r["u"] + "1" for r in big150[::7]] + ["p145:1", "http://big.example/145/1", "late:1", "http://late.example/1"]
+        out.append([{"k": "new", "recs": big150, "delim": ":", "extra": p150},
+                    {"k": "sub", "i": 1, "P": keep, "extra": p150},
+                    {"k": "probe", "is": [1, 2], "extra": p150},
+                    {"k": "add", "i": 2, "rec": {"p": "late", "u": "http://late.example/", "ps": [], "us": ["http://big.example/003/late/"], "pat": None}, "cs": True, "mg": False, "via": "record", "extra": p150},
+                    {"k": "probe", "is": [1, 2], "extra": p150 + ["http://big.example/003/late/1"]},
+                    {"k": "chain", "is": [2, 1], "cs": False, "extra": p150},
+                    {"k": "probe", "is": [1, 2, 3], "extra": p150}])
+        out.append([{"k": "new", "recs": big, "delim": ":"}, {"k": "new", "recs": [{"p": "P003", "u": "http://x.example/3/", "ps": ["x3"], "us": ["HTTP://BIG.EXAMPLE/004/"], "pat": None}], "delim": ":"},
+                    {"k": "chain", "is": [1, 2], "cs": True}, {"k": "chain", "is": [1, 2], "cs": False}, {"k": "chain", "is": [2, 1], "cs": False}])
+    if pid in ("C11", "C10"):
+        big110 = big_records(110)
+        out.append([{"k": "new", "recs": big110, "delim": ":"},
+                    {"k": "remap_curie", "i": 1, "m": [["p000", "fresh0"], ["p002", "p000"]]},          # p002 takes over the name p000 gives up
+                    {"k": "remap_curie", "i": 1, "m": [["p002", "p000"], ["p000", "fresh0"]]},
+                    {"k": "remap_curie", "i": 1, "m": [["p004", "shared"], ["p005", "shared2"], ["s003", "p077x"]]},
+                    {"k": "remap_curie", "i": 1, "m": [[f"p{i:03d}", f"p{i + 1:03d}"] for i in range(20, 60)] + [["p060", "tail"]]},   # a chain of 41 renames
+                    {"k": "remap_curie", "i": 1, "m": list(reversed([[f"p{i:03d}", f"p{i + 1:03d}"] for i in range(20, 60)] + [["p060", "tail"]]))}])
+    if pid in ("C12", "C10"):
+        m130 = [[f"http://old.example/{i:03d}/", f"https://new.example/{i:03d}/"] for i in range(130)]
+        m130[7] = ["http://big.example/007/", "https://new.example/007/"]
+        out.append([{"k": "new", "recs": big, "delim": ":"},
+                    {"k": "remap_uri", "i": 1, "m": m130},
+                    {"k": "remap_uri", "i": 1, "m": m130[:128]},
+                    {"k": "rewire", "i": 1, "m": [[f"p{i:03d}", f"https://rewired.example/{i:03d}/"] for i in range(40)] + [[f"q{i:03d}", f"https://unknown.example/{i:03d}/"] for i in range(95)]},
+                    {"k": "rewire", "i": "last", "m": [["p001", "https://rewired.example/000/"], ["p000", "https://again.example/"]]}])
+    return out
 
 
 # ---------------------------------------------------------------------------
@@ -525,8 +629,8 @@ def random_oplists(pid, rng, n):
 # the check
 
 SIZES = {
-    "quick": {"hist": 100, "random": 60, "mc_timeout": 420, "tr_timeout": 900, "probe_cap": 20, "full_n": 4},
-    "thorough": {"hist": 1000, "random": 400, "mc_timeout": 3400, "tr_timeout": 3400, "probe_cap": 28, "full_n": 6},
+    "quick": {"hist": 100, "random": 60, "hazard": 40, "mc_timeout": 420, "tr_timeout": 900, "probe_cap": 20, "full_n": 4},
+    "thorough": {"hist": 1000, "random": 400, "hazard": 300, "mc_timeout": 3400, "tr_timeout": 3400, "probe_cap": 28, "full_n": 6},
 }
 CMAPS = {"quick": ["ascii", "unicode", "obo", "dcolon", "case"], "thorough": ["ascii", "unicode", "obo", "dcolon", "tokens", "case"]}
 ASSUMPTIONS = [
@@ -712,6 +816,9 @@ def check(pid, tier, seed):
     n_hist = len(oplists) - n_cex
     oplists += sim_ops
     oplists += random_oplists(pid, rng, sz["random"])
+    n_plain = len(oplists)
+    oplists += hazard_oplists(pid, seed, sz["hazard"])
+    oplists += scale_oplists(pid, seed)
     batch = world.execute(oplists, seed, opts, {pid})
     fails, st = tlc.validate_traces(batch, timeout=sz["tr_timeout"])
     mine, other = {}, {}
@@ -775,7 +882,8 @@ def check(pid, tier, seed):
                 "distinct operation lists executed on the implementation (each creates at least one converter and is followed by a probe table)",
         "exhaustive": all(not m["violated"] for m in models),
         "models": models, "trace_events": n_events, "event_kinds": kinds,
-        "simulation": sim_stats, "apalache_symbolic_check": apa, "repository_tests_as_driver": repo, "behaviours_from_tlc": n_hist, "spec_signature_coverage": STRATA.get(pid), "behaviours_from_simulation": len(sim_ops), "behaviours_random": len(oplists) - n_hist - n_cex - len(sim_ops),
+        "simulation": sim_stats, "apalache_symbolic_check": apa, "repository_tests_as_driver": repo, "behaviours_from_tlc": n_hist, "spec_signature_coverage": STRATA.get(pid), "behaviours_from_simulation": len(sim_ops), "behaviours_random": n_plain - n_hist - n_cex - len(sim_ops),
+        "behaviours_hazard_strings_and_scale": len(oplists) - n_plain,
         "concretisations": CMAPS[tier], "trace_validation": st,
         "other_clauses_failed": other, "known_findings": [k["id"] for k in known],
         "checker_cmd": "tlc -workers 16 spec/mc/MC_*.tla ; TRACE_FILE=<batch> tlc spec/Trace.tla",
